@@ -3,12 +3,18 @@
 Ties the Coq model of hidc's `bool_expr_branch` (coq/Codegen/LowerBoolModel.v, extracted through
 coq/Extract/ExtractLowerBool.v, driven by ocaml/hidlower.ml) TEXTUALLY to the real compiler.
 
-For every generated program
+For every generated program of one of the shapes
 
-    empty @is_you(int a, int b, int c) {
-        bool p = <D0>;  bool q = <D1>;  [p = <V>;]
-        if (<C>) { write('T'); } else { write('F'); }
-    }
+    'if'    empty @is_you(int a, int b, int c) {
+                bool p = <D0>;  bool q = <D1>;  [p = <V>;]
+                if (<C>) { write('T'); } else { write('F'); } }
+    'defs'  empty @is_you(int a, int b, int c) {                       (static defeat)
+                bool p = <D0>;  bool q = <D1>;
+                try { !truth_is_defeat(<C>); write('f'); } undo { write('t'); } }
+    'defv'  empty !chk(int a, int b, int c) {                           (virtual defeat: the try/stop
+                bool p = <D0>;  bool q = <D1>;                           in @is_you virtualises it)
+                !truth_is_defeat(<C>); write('g'); }
+            empty @is_you(int a, int b, int c) { try { !chk(a, b, c); } stop { write('s'); } }
 
 (D0, D1, V, C boolean expression trees of F_model: comparisons of int operands -- int parameters,
 integer literals from a boundary grid, nested + - * arithmetic over them --, bool locals, bool
@@ -19,10 +25,11 @@ word size, the emitted text is cut into statement segments at the `; Statement @
 comment lines are dropped, and every segment that goes through `bool_expr_branch` is compared
 LINE BY LINE, labels included, with `print_aline` of the model's output:
 
-    Declaration   eval_expr BooleanOp, keep=True        Model.value_lowering_keep  (sbso set)
-    Assignment    eval_expr BooleanOp into r1            Model.value_lowering R1    (mov set)
-                  (+ the final `sbso [fp], -off, [r1]` of the assignment itself)
+    Declaration   push_expr(r1, e)                       Model.declare_bool  (BooleanOp keep=True, or a
+                                                                             value into r1 and a byte push)
+    Assignment    get_expr_value(r1, e); access.set       Model.assign_bool
     IfBlock       bool_expr_branch(cond, (), goto else)  Model.if_block
+    FuncCall      !truth_is_defeat(e)                    Model.lower_defeat  (static / virtual)
 
 The label counters are threaded by the model through the statements of a program, so the
 numbering discipline of `add_label` is part of what is compared.
@@ -35,10 +42,11 @@ from common import REPO, VERIF, CannotTranslate, write_if_changed
 
 COQ_DEPS = ['Sphinx/Machine.vo', 'Sphinx/WordLemmas.vo', 'Gen/GenTables.vo', 'Codegen/OpTables.vo']
 COQ_FILES = ['Codegen/LowerBoolModel.v', 'Extract/ExtractLowerBool.v']
-RULE = ('for every generated program and word size, every statement segment that hidc lowers through '
-        'bool_expr_branch (Declaration / Assignment of a comparison, and, or; IfBlock condition) equals, line '
-        'for line and label for label, print_aline of the extracted Coq model run on the checked tree of the '
-        'same statement, with the label counters threaded through the program')
+RULE = ('for every generated program and word size, every statement segment that lowers a boolean expression '
+        '(Declaration / Assignment of a bool local, IfBlock condition, !truth_is_defeat call with static or '
+        'virtual defeat) equals, line for line and label for label, print_aline of the extracted Coq model run '
+        'on the checked tree of the same statement, with the label counters and the frame offset threaded '
+        'through the program')
 
 OPS = {'lt': '<', 'gt': '>', 'le': '<=', 'ge': '>=', 'eq': '==', 'ne': '!='}
 GRID = [0, 1, -1, 2, 3, 5, 127, 128, -128, -129, 255, 256, 32767, 32768, -32768, -32769, 65535, 65536,
@@ -49,7 +57,7 @@ BOOLS = ['p', 'q']
 
 # ------------------------------------------------------------------------------------ trees
 # E ::= ('lit', bool) | ('bvar', j) | ('cmp', op, A, A) | ('not', E) | ('and', E, E) | ('or', E, E)
-# A ::= ('i', k) | ('n', z) | ('ar', op, A, A)
+# A ::= ('i', k) | ('n', z) | ('ar', op, A, A) | ('un', 'neg'|'pos', A)
 AOPS = {'add': '+', 'sub': '-', 'mul': '*'}
 
 
@@ -57,6 +65,8 @@ def gen_opd(rng, depth=2):
     r = rng.random()
     if depth > 0 and r < 0.22:
         return ('ar', rng.choice(list(AOPS)), gen_opd(rng, depth - 1), gen_opd(rng, depth - 1))
+    if depth > 0 and r < 0.30:
+        return ('un', 'neg' if rng.random() < 0.6 else 'pos', gen_opd(rng, depth - 1))
     return ('i', rng.randrange(3)) if r < 0.7 else ('n', rng.choice(GRID))
 
 
@@ -96,6 +106,8 @@ def opd_src(a):
         return INTS[a[1]]
     if a[0] == 'n':
         return str(a[1]) if a[1] >= 0 else '(%d)' % a[1]
+    if a[0] == 'un':
+        return '(%s%s)' % ('-' if a[1] == 'neg' else '+', opd_src(a[2]))
     return '(%s %s %s)' % (opd_src(a[2]), AOPS[a[1]], opd_src(a[3]))
 
 
@@ -134,11 +146,19 @@ def subtrees(e):
 
 # a program: {'d0': E, 'd1': E, 'v': E | None, 'c': E}
 def program_src(pr):
+    shape = pr.get('shape', 'if')
     body = 'bool p = %s; bool q = %s; ' % (expr_src(pr['d0']), expr_src(pr['d1']))
-    if pr['v'] is not None:
-        body += 'p = %s; ' % expr_src(pr['v'])
-    body += "if (%s) { write('T'); } else { write('F'); }" % expr_src(pr['c'])
-    return 'empty @is_you(int a, int b, int c) { %s }\n' % body
+    if shape == 'if':
+        if pr['v'] is not None:
+            body += 'p = %s; ' % expr_src(pr['v'])
+        body += "if (%s) { write('T'); } else { write('F'); }" % expr_src(pr['c'])
+        return 'empty @is_you(int a, int b, int c) { %s }\n' % body
+    if shape == 'defs':
+        body += "try { !truth_is_defeat(%s); write('f'); } undo { write('t'); }" % expr_src(pr['c'])
+        return 'empty @is_you(int a, int b, int c) { %s }\n' % body
+    body += "!truth_is_defeat(%s); write('g');" % expr_src(pr['c'])
+    return ('empty !chk(int a, int b, int c) { %s }\n'
+            "empty @is_you(int a, int b, int c) { try { !chk(a, b, c); } stop { write('s'); } }\n" % body)
 
 
 # ------------------------------------------------------------------------------------ impl side
@@ -157,6 +177,8 @@ def opd_sx(o, A, O):
         return '(i %d)' % INTS.index(str(o.var.name))
     if type(o) in ar_names:
         return '(ar %s %s %s)' % (ar_names[type(o)], opd_sx(o.left, A, O), opd_sx(o.right, A, O))
+    if type(o) in (O.Neg, O.Pos):
+        return '(un %s %s)' % ('neg' if type(o) is O.Neg else 'pos', opd_sx(o.arg, A, O))
     raise Outside('operand ' + type(o).__name__)
 
 
@@ -182,18 +204,13 @@ def checked_sx(x, A, O):
     raise Outside(T.__name__)
 
 
-def value_stmt_sx(x, head, skip, A, O):
-    """statement s-expression for an expression in value position"""
-    T = type(x)
-    if T in (A.BoolValue, A.VariableLookup):
-        return skip                                       # not lowered through bool_expr_branch, no labels
-    if T is O.Not or not isinstance(x, O.BooleanOp):
-        raise Outside('value top ' + T.__name__)         # Unary path: outside F_model
+def value_stmt_sx(x, head, A, O):
+    """Declaration / Assignment of a bool local: every F_model shape is modelled"""
     return '(%s %s)' % (head, checked_sx(x, A, O))
 
 
-def impl_run(src, w):
-    """-> ('ok', [segments of hidc], model_line, [compare flags], [off]) | ('outside', why) | ('error', why)"""
+def impl_run(src, w, shape='if'):
+    """-> ('ok', [segments of hidc], model_line, [statements]) | ('outside', why) | ('error', why)"""
     from hidc.lexer import SourceCode
     from hidc.parser import parse
     from hidc.ast import Environment
@@ -203,33 +220,40 @@ def impl_run(src, w):
     try:
         env = Environment.empty()
         prog = parse(SourceCode.from_string(src)).evaluate(env)
-        stmts = prog.func_decls[-1].body.stmts
+        funcs = {str(f.name): f for f in prog.func_decls}
         cg = CodeGen(env, word_size=w, stack_size=64, unchecked=False)
         lines = list(cg.gen_lines())
     except CompilerError as e:
         return ('error', '%s: %s' % (type(e).__name__, str(e).split('\n')[0][:100]))
     except Exception as e:                                  # noqa
         return ('error', 'internal %s: %s' % (type(e).__name__, str(e)[:100]))
-    # model input from the checked tree
-    offs = {'p': 4 * w + 1, 'q': 4 * w + 2}
-    sx, extra = [], []
+    # model input from the checked tree, in the order in which the statements are emitted
+    sx = []
     try:
+        if shape == 'defv':
+            # @is_you is emitted first: TryBlock, the call of !chk, write('s'), the implicit return
+            sx += ['(skip)'] * 4 + ['(newfun 3)']
+            stmts = [f for n, f in funcs.items() if n.endswith('chk')][0].body.stmts
+        else:
+            stmts = [f for n, f in funcs.items() if n.endswith('is_you')][0].body.stmts
         for s in stmts:
             if isinstance(s, S.Declaration):
-                sx.append(value_stmt_sx(s.init, 'decl', '(skipdecl)', A, O))
-                extra.append(None)
+                sx.append(value_stmt_sx(s.init, 'decl', A, O))
             elif isinstance(s, S.Assignment):
-                sx.append(value_stmt_sx(s.expr, 'val r1', '(skip)', A, O))
-                extra.append('sbso [fp], -%d, [r1]' % offs[str(s.lookup.var.name)])
+                sx.append(value_stmt_sx(s.expr, 'assign %d' % BOOLS.index(str(s.lookup.var.name)), A, O))
             elif isinstance(s, B.IfBlock):
                 sx.append('(if %s)' % checked_sx(s.cond, A, O))
-                extra.append(None)
+            elif isinstance(s, B.TryBlock):
+                call = s.body.stmts[0]
+                sx += ['(skip)', '(defeat s %s)' % checked_sx(call.args[0], A, O)]
+            elif isinstance(s, A.FuncCall) and 'truth_is_defeat' in str(s.func):
+                sx.append('(defeat v %s)' % checked_sx(s.args[0], A, O))
             else:
-                break                                       # the implicit return
+                break                                       # write(..) / the implicit return
     except Outside as e:
         return ('outside', str(e))
     # cut the emitted text into statement segments
-    segs, cur, depth0 = [], None, None
+    segs, cur = [], None
     for ln in lines:
         t = ln.strip()
         if t.startswith(b'; Statement @'):
@@ -238,8 +262,12 @@ def impl_run(src, w):
             continue
         if t.startswith(b';') or cur is None:
             continue
+        if t.endswith(b':') and (t.startswith(b'func_') or t in (b'all_is_win:',)):
+            cur = None                                      # the next function / the stdlib
+            continue
         cur.append(t.decode())
-    return ('ok', segs[:len(sx)], '%d 3 %s' % (w, ' '.join(sx)), sx, extra)
+    nseg = len([x for x in sx if not x.startswith('(newfun')])
+    return ('ok', segs[:nseg], '%d 3 %s' % (w, ' '.join(sx)), [x for x in sx if not x.startswith('(newfun')])
 
 
 # ------------------------------------------------------------------------------------ model side
@@ -309,15 +337,17 @@ def model_segments(text):
 # ------------------------------------------------------------------------------------ comparison
 def compare(impl, model_text):
     """-> (lines compared, first difference | None)"""
-    _, segs, _, sx, extra = impl
+    _, segs, _, sx = impl
     msegs = model_segments(model_text)
     if msegs is None:
         return 0, {'segment': -1, 'model': model_text, 'impl': ''}
     n = 0
     for k, (s, stmt) in enumerate(zip(segs, sx)):
-        if stmt in ('(skip)', '(skipdecl)'):
+        if stmt == '(skip)':
             continue
-        want = list(msegs[k]) + ([extra[k]] if extra[k] else [])
+        want = list(msegs[k]) if k < len(msegs) else ['<no model segment>']
+        if stmt.startswith('(defeat s'):
+            s = s[:len(s) - 0]                              # the segment ends at the next statement
         n += len(s)
         if s != want:
             i = 0
@@ -333,7 +363,7 @@ def compare(impl, model_text):
 
 def check_one(exe, pr, w):
     """-> (status, lines, diff)"""
-    r = impl_run(program_src(pr), w)
+    r = impl_run(program_src(pr), w, pr.get('shape', 'if'))
     if r[0] != 'ok':
         return r[0], 0, r[1]
     n, d = compare(r, model_all(exe, [r[2]])[0])
@@ -350,15 +380,13 @@ def shrink(exe, pr, w):
     while changed:
         changed = False
         cands = []
-        if pr['v'] is not None:
+        if pr.get('v') is not None:
             cands.append(dict(pr, v=None))
         for key in ('c', 'v', 'd1', 'd0'):
-            e = pr[key]
+            e = pr.get(key)
             if e is None:
                 continue
             alts = list(subtrees(e)) + [simple, ('lit', True)]
-            if key != 'c':
-                alts = [x for x in alts if x[0] in ('cmp', 'and', 'or')]
             for x in alts:
                 if x != e and len(expr_src(x)) < len(expr_src(e)):
                     cands.append(dict(pr, **{key: x}))
@@ -377,7 +405,8 @@ def enumerated(tier):
     atoms = [('cmp', 'lt', ('i', 0), ('i', 1)), ('cmp', 'eq', ('i', 1), ('n', 3)), ('cmp', 'le', ('n', 5), ('i', 2)),
              ('bvar', 0), ('lit', True), ('lit', False), ('not', ('bvar', 1)),
              ('cmp', 'lt', ('ar', 'add', ('i', 0), ('n', 1)), ('ar', 'mul', ('i', 1), ('i', 2))),      # left kept
-             ('cmp', 'ge', ('i', 0), ('ar', 'sub', ('i', 1), ('n', 2)))]                                  # unsafe right
+             ('cmp', 'ge', ('i', 0), ('ar', 'sub', ('i', 1), ('n', 2))),                                  # unsafe right
+             ('cmp', 'gt', ('un', 'pos', ('i', 0)), ('un', 'neg', ('ar', 'add', ('i', 1), ('i', 2))))]   # unary, left kept
     if tier != 'quick':
         atoms += [('cmp', 'eq', ('ar', 'add', ('i', 0), ('i', 1)), ('n', 3)),
                   ('cmp', 'ne', ('ar', 'sub', ('ar', 'add', ('i', 0), ('i', 1)), ('ar', 'mul', ('i', 2), ('n', 2))),
@@ -399,6 +428,19 @@ def enumerated(tier):
                         out.append({'d0': simple, 'd1': simple, 'v': None, 'c': (k2, e, z)})
                         if tier != 'quick':
                             out.append({'d0': simple, 'd1': simple, 'v': None, 'c': (k2, z, ('not', e))})
+    # the same conditions under !truth_is_defeat, static and virtual
+    extra = []
+    for x in atoms:
+        for shape in ('defs', 'defv'):
+            extra.append({'shape': shape, 'd0': simple, 'd1': ('not', ('bvar', 0)), 'c': x})
+            extra.append({'shape': shape, 'd0': simple, 'd1': ('bvar', 0), 'c': ('not', x)})
+            extra.append({'shape': shape, 'd0': simple, 'd1': ('lit', True), 'c': ('not', ('not', x))})
+            for y in atoms:
+                for k in ('and', 'or'):
+                    extra.append({'shape': shape, 'd0': simple, 'd1': simple, 'c': (k, x, y)})
+                    if tier != 'quick' or atoms.index(y) < 4:
+                        extra.append({'shape': shape, 'd0': simple, 'd1': simple, 'c': ('or', (k, x, y), ('not', y))})
+    out += extra
     # d0 may not mention p or q, d1 may not mention q: patch offending enumerated declarations
     for pr in out:
         if 'bvar' in repr(pr['d0']):
@@ -408,9 +450,11 @@ def enumerated(tier):
 
 def random_program(rng, maxdepth):
     d = rng.randint(0, maxdepth)
-    return {'d0': gen_value_expr(rng, rng.randint(0, 2), 0),
-            'd1': gen_value_expr(rng, rng.randint(0, 2), 1),
-            'v': gen_value_expr(rng, rng.randint(0, 3), 2) if rng.random() < 0.5 else None,
+    shape = rng.choice(['if', 'if', 'defs', 'defv'])
+    return {'shape': shape,
+            'd0': gen_expr(rng, rng.randint(0, 2), 0),
+            'd1': gen_expr(rng, rng.randint(0, 2), 1),
+            'v': (gen_expr(rng, rng.randint(0, 3), 2) if rng.random() < 0.5 else None) if shape == 'if' else None,
             'c': gen_expr(rng, d, 2)}
 
 
@@ -428,21 +472,23 @@ def run(tier, seed, workdir):
     progs = enumerated(tier) + [random_program(rng, maxdepth) for _ in range(nrand)]
 
     dist = {'depth': collections.Counter(), 'nodes': collections.Counter(), 'word': collections.Counter(),
-            'status': collections.Counter(), 'segments': collections.Counter(), 'operands': collections.Counter()}
+            'status': collections.Counter(), 'segments': collections.Counter(), 'operands': collections.Counter(), 'shape': collections.Counter()}
     jobs = []                                                   # (program index, w, impl result)
     for k, pr in enumerate(progs):
         src = program_src(pr)
         dist['depth'][depth_of(pr['c'])] += 1
         nodes_of(pr['c'], dist['nodes'])
         for w in words:
-            r = impl_run(src, w)
+            r = impl_run(src, w, pr.get('shape', 'if'))
             dist['status'][r[0]] += 1
+            dist['shape'][pr.get('shape', 'if')] += 1
             if r[0] == 'ok':
                 jobs.append((k, w, r))
                 dist['word'][w] += 1
                 for s in r[3]:
                     dist['segments'][s.split(' ')[0].strip('(').strip(')')] += 1
                     dist['operands']['arith'] += s.count('(ar ')
+                    dist['operands']['unary'] += s.count('(un ')
                     dist['operands']['local'] += s.count('(i ')
                     dist['operands']['literal'] += s.count('(n ')
             elif r[0] == 'error':
@@ -461,7 +507,7 @@ def run(tier, seed, workdir):
         if d is not None and k not in seen_bad and len(disagreements) < 10:
             seen_bad.add(k)
             small = shrink(exe, progs[k], w)
-            rs = impl_run(program_src(small), w)
+            rs = impl_run(program_src(small), w, small.get('shape', 'if'))
             n2, d2 = compare(rs, model_all(exe, [rs[2]])[0]) if rs[0] == 'ok' else (0, d)
             d2 = d2 or d
             disagreements.append({'input': program_src(small).strip(), 'w': w, 'model': d2.get('model'), 'impl': d2.get('impl'),
